@@ -490,8 +490,8 @@ class Dense(Monitor):
         queries = []
         for j in range(n - 1):
             a, b = t[j], t[j + 1]
-            if a == b:
-                continue
+            if a == b or spiked:
+                continue        # a spiked rhs value may sit in an end slope: only coverage/order are meaningful then
             for jj in (j, j + 1):
                 if slopes[jj] is None:
                     slopes[jj] = np.asarray(f(t[jj], y[jj]), dtype=dtype)
